@@ -1,5 +1,6 @@
 # C05 — hash audit (rfigc generation + check mode): correspondence of HashChk.v with the real
 # `rfigc.main` on real temp trees, and the property predicate evaluated on the tool's own output.
+import common
 import copy, json, os, shutil, tempfile
 from props import hashchk_lib as L
 from props.hashchk_lib import HarnessError
@@ -185,6 +186,7 @@ def exec_scenario(ctx, sc, runs):
             if run.get('efile', True):
                 args += ['-e', ef]
             if nm: args.append('-m')
+            if common.every_fourth(run): args.append('-v')
             if sm: args.append('--skip_missing')
             if sh: args.append('--skip_hash')
             rows_k = real_rows
